@@ -24,6 +24,7 @@ def run(ctx):
     qharness.bounded_pool_scenario(ctx)
     qharness.unbounded_relay_pool_scenario(ctx)
     qharness.bounded_store_pool_requeue_scenario(ctx)
+    qharness.bounded_store_pool_announce_scenario(ctx)
 
 
 def replay(ctx, case):
